@@ -426,3 +426,44 @@ def flight_keys() -> Set[str]:
     from mloda.core.runtime.flight.flight_server import FlightServer
     fs = flight_server()
     return set(FlightServer.list_flight_infos(fs.get_location()))
+
+
+class FileListener(Listener):
+    """Listener usable across worker processes: every calculation appends one JSON line to a file (O_APPEND writes of
+    short lines are atomic on Linux)."""
+
+    def __init__(self, path: str) -> None:
+        import os
+        self.path = path
+        if os.path.exists(path):
+            os.unlink(path)
+
+    def _w(self, obj: Any) -> None:
+        import json as _json
+        import os
+        fd = os.open(self.path, os.O_WRONLY | os.O_APPEND | os.O_CREAT, 0o644)
+        try:
+            os.write(fd, (_json.dumps(obj) + "\n").encode())
+        finally:
+            os.close(fd)
+
+    def on_enter(self, group: str, names: List[str], cols: List[str], data: Any, features: Any = None) -> None:
+        self._w({"ev": "enter", "group": group, "names": sorted(names), "cols": sorted(cols),
+                 "feats": sorted(f"{f.get_name()}:{f.uuid}" for f in features.features) if features is not None else []})
+
+    def on_exit(self, group: str, names: List[str]) -> None:
+        self._w({"ev": "exit", "group": group, "names": sorted(names)})
+
+    def read(self) -> Tuple[List[tuple], List[List[str]]]:
+        import json as _json
+        import os
+        events, calls = [], []
+        if os.path.exists(self.path):
+            for line in open(self.path):
+                o = _json.loads(line)
+                if o["ev"] == "enter":
+                    events.append(("enter", o["group"], tuple(o["names"]), tuple(o["cols"])))
+                    calls.append(o["feats"])
+                else:
+                    events.append(("exit", o["group"], tuple(o["names"]), ()))
+        return events, calls
